@@ -29,6 +29,41 @@ The subset
                  parameter `x_none`), default values and keyword arguments in calls of functions of the same unit.
   recursion    : a function that calls itself is translated with a fuel argument (`partial` would hide it from proofs);
                  the fuel-free wrapper starts with the fuel given in the spec.
+  numpy vectors: (the `nd_*` methods; elementwise arithmetic itself is `pylite4_binop`, ufuncs of `fn_params` on a vector are
+                 `List.map f`) `np.ceil / np.floor` (scalar or vector; the value as a float: `rceil`, `rfloor`), `math.ceil /
+                 math.floor` (Int), `u.copy()`, `u.astype(int)` (truncation towards zero, `truncInt`) / `u.astype(float)`, and
+                 the masked store `u[u <op> c] = v` — only on an array that this function built itself and that no other name
+                 can see (`u = w.copy()`, an arithmetic result ..; flow-insensitive check `nd_require_owned`): then the in-place
+                 store is a rebinding of `u`.
+  constants    : `Unit(path, fns, consts={"THETA": "Rat"})`: module-level constants `THETA = <expr>` are translated from the
+                 source to `def THETA : Rat := ..` and may be read by the functions of the unit;
+                 `fn_params={"2**": "pow2"}`: `2 ** e` with a non-integer exponent is the function parameter `pow2 e`.
+  PyLite 4     : 1-d numpy arrays as lists: element-wise `a * b`, `a - b`, `a / b` of two arrays and `c + a`, `a * c`, .. with a
+                 float scalar (only the forms that are a TypeError on Python lists), `np.diff(x[, prepend=v])`, `np.append`
+                 (ravels its arguments), `np.empty(shape=n)` (content = the opaque function `Rpylib.Py.uninit`),
+                 `np.zeros_like`, `x.shape[0]`, `.size` of an array element (1), a numpy ufunc declared in `fn_params` applied
+                 to an array (`List.map`), the single argument of a declared opaque callable passed by keyword.
+                 Variate streams: an opaque callable declared with first argument type `@` is a sampler (each call returns a
+                 fresh variate): its Lean parameter takes the tag [call site, positions in the enclosing loops /
+                 comprehensions] (`List Int`) as first argument, so that different dynamic calls may return different values;
+                 loops / comprehensions that contain such a call iterate over `enumerate` of their iterable.
+  star products: (`iter_stmt`) literal lists of lists; `product(*xss)` / `zip(*xss)` of a list of lists (`Rpylib.Py.cartesian`,
+                 `transpose`); a local bound to one of them is a one-shot iterator: only `next(x)` statements (drop the first
+                 result) and ONE `for` over it are translatable; keyword arguments of a declared opaque callable whose parameter
+                 names are given in `opts["opaque_kwargs"]`; `opts["static_tests"] = {"<test text>": True/False}`: an `if` with
+                 that test is decided by the spec (the definition is the function specialised to that case — for code whose
+                 variables change type with the case, e.g. `if dim == 1: h = [h]`; stated in the definition's doc line).
+  objects      : (C13) `Fn(stores={"attr": type})`: the attributes are mutable state — `self.attr`, `self.attr = e`, `self.attr op= e`,
+                 `self.attr[i] = v` act on a state variable whose value on entry is the parameter `self_attr`; a function that
+                 ends without a value (or `return self`) returns the tuple of the final values.  Callers of such a function are
+                 untranslatable.  A `for` whose body changes the list it iterates over *in place* is only translatable in the
+                 form `for i, .. in enumerate(xs): .. xs[i] = v` (Python iterates live, the fold over a snapshot: they agree
+                 there).  `Fn(ctor=[kw, ..])`: `super(..).__init__(kw=v, ..)` ends the translation, the constructed object is
+                 the tuple of these arguments (`x = cls.__new__(cls)` is skipped).  `Fn("f#tag", block=(first, last[, n]),
+                 result=expr)`: a *view* of the consecutive statements from the n-th one starting with `first` to the next one
+                 starting with `last`, as a function of the declared `params`, value `expr`.  `Class.method@Type`: the
+                 implementation registered with `@method.register` for a first parameter annotated `Type`.
+                 `xs[::-1]`, `np.concatenate((a, [c], b))`, `a.size`, `[x, ..] * n`, `np.linspace(start, stop, num)`.
 Anything else raises `Untranslatable` with the source position: the source tie of that function is then *unavailable* (the
 behavioural correspondence remains), never silently approximated.
 
@@ -126,14 +161,15 @@ class Fn:
     """one function to translate: where it is, how its parameters are typed"""
 
     def __init__(self, qualname, params=None, ret=None, self_attrs=None, enum_attrs=None, fuel=None, lean_name=None,
-                 err=None, consts=None, fn_params=None, const_calls=None, opaque_fns=None, const_exprs=None, opaque_index=None):
+                 err=None, consts=None, fn_params=None, const_calls=None, opaque_fns=None, const_exprs=None, opaque_index=None,
+                 stores=None, block=None, result=None, ctor=None, opts=None):
         self.qualname = qualname                  # "Class.method" or "function"
         self.params = params or {}                # python parameter name -> "Int" | "Rat" | "Bool" (overrides annotations)
         self.ret = ret                            # Lean return type, e.g. "Int", "Rat", "Int × Int"
         self.self_attrs = self_attrs or {}        # attribute name -> Lean type; becomes a parameter self_<attr>
         self.enum_attrs = enum_attrs or {}        # attribute name -> enum class name (tests become Bool parameters)
         self.fuel = fuel                          # Lean expression (in the parameters) bounding the recursion depth
-        self.lean_name = lean_name or qualname.replace(".", "_").replace("__", "_").lstrip("_")
+        self.lean_name = lean_name or qualname.replace(".", "_").replace("__", "_").replace("#", "_").replace("@", "_").lstrip("_")
         self.err = err                            # Lean term returned where the Python code raises (None: raise is untranslatable)
         self.consts = consts or {}                # module-level / class-level constant names -> (Lean term, type)
         self.fn_params = fn_params or {}          # python callable name (e.g. "np.exp") -> Lean parameter name of type Rat → Rat
@@ -141,6 +177,23 @@ class Fn:
         self.opaque_fns = opaque_fns or {}        # python callable (e.g. "self._theta") -> (Lean parameter name, [arg types], ret type)
         self.const_exprs = const_exprs or {}      # normalised text of any expression (e.g. "a==-np.inf") -> (Lean parameter name, type)
         self.opaque_index = opaque_index or {}    # name of an object parameter -> (Lean function parameter, index type, value type): obj[i]
+        self.stores = stores or {}                # mutable attributes: name -> Lean type.  `self.<name>` is a state variable
+        #   (parameter self_<name> = its value on entry); a function that ends without a value (or with `return self`) returns the
+        #   tuple of their final values in this order ("attribute stores as extra results").  Callers cannot be translated.
+        self.block = block                        # (first, last[, occurrence]): translate only the consecutive statements from the
+        #   one whose text starts with `first` to the one whose text starts with `last` (a *view* of a sub-block: its free
+        #   variables are the declared `params`), followed by `return <result>`
+        self.result = result                      # python expression text returned after the sub-block
+        self.ctor = ctor                          # [kw, ..]: `super(..).__init__(kw=v, ..)` ends the translation: the constructed
+        #   object is read as the tuple of these keyword arguments; `x = cls.__new__(cls)` is skipped
+        self.opts = opts or {}                    # PyLite 3 options (while loops, deques, numpy vectors; see `_Tr.while_loop`):
+        #   "loop_fuel": Lean Nat expression (in the parameters) = fuel of every `while` loop (fuel exhausted -> `err`);
+        #   "local_types": {local name: Lean type} for locals initialised with `deque()` / `[]`;
+        #   "np_arrays": [names] of numpy vectors: `v * s`, `s * v`, `v / s` with a scalar `s` are elementwise (a Python list
+        #                would be repeated by `*`: the spec asserts the name is bound to a numpy array);
+        #   "counters": ["self.sampling_cost", ..] attributes that are only incremented (`self.c += e`), never read by the
+        #                function: the store is dropped (it cannot influence the value returned);
+        #   "sorted_state": True -> the state tuple of every loop is ordered by variable name (not by first assignment)
         # parameter types: "Int" | "Rat" | "Bool", "obj" (an object only used through the opaque_* / const_* tables: no binder),
         # "fn:<Lean function type>" (a callable parameter, e.g. "fn:Rat → Rat → Rat")
 
@@ -148,9 +201,11 @@ class Fn:
 class Unit:
     """translation unit: the functions of one Python file"""
 
-    def __init__(self, path, fns):
+    def __init__(self, path, fns, consts=None):
         self.path = path
         self.fns = {f.qualname: f for f in fns}
+        self.consts = consts or {}                # module-level constants translated from the source: name -> Lean type
+        self.const_bad: dict[str, str] = {}       # constants that could not be translated: name -> reason
 
 
 class _Tr(ast.NodeVisitor):
@@ -162,8 +217,12 @@ class _Tr(ast.NodeVisitor):
         self.tmp = 0
         self.alias: dict[str, str] = {}           # local name -> dotted object path it stands for (e.g. params -> self.parameters)
         self.none_flag: dict[str, str] = {}       # optional parameter name -> Lean Bool term "it is None here"
+        self.iters: set[str] = set()              # locals bound to a one-shot iterator (see `iter_stmt`)
         self.state_types: list[str] | None = None  # inside a loop body: the types of the state variables (for _Yield)
         self.yield_types: list[str] | None = None
+        self.ix_stack: list[str] = []             # PyLite 4: index variables of the enclosing loops / comprehensions
+        self.ix_used: set[str] = set()            #   those a variate-stream call (`@` argument) refers to
+        self.sites: dict = {}                     #   (sampler, id(ast node)) -> number of the call site among that sampler's
 
     # ---- helpers -------------------------------------------------------------------------------------------------
     def bad(self, node, why):
@@ -229,9 +288,18 @@ class _Tr(ast.NodeVisitor):
                 s_, t_ = self.iterable(e.args[0])
                 n = self.expr_as(e.keywords[0].value, INT)
                 return f"(Rpylib.Py.product {s_} (Int.toNat {n}))", list_of(t_)
+            if fd in ("product", "itertools.product", "zip") and len(e.args) == 1 and isinstance(e.args[0], ast.Starred) \
+                    and not e.keywords:
+                # `product(*xss)` / `zip(*xss)` of a list of lists: every result is a list of elements of the inner lists
+                s_, t_ = self.expr(e.args[0].value)
+                if not (is_list(t_) and is_list(elem_of(t_))):
+                    self.bad(e, f"{fd}(*x) of a value of type {t_}")
+                return f"(Rpylib.Py.{'transpose' if fd == 'zip' else 'cartesian'} {s_})", elem_of(t_)
         if isinstance(e, (ast.List, ast.Tuple)):
             parts = [self.expr(x) for x in e.elts]
             tys = {t for _, t in parts}
+            if len(tys) == 1 and is_list(next(iter(tys))):        # a literal list of lists of one type
+                return "[" + ", ".join(s_ for s_, _ in parts) + "]", next(iter(tys))
             et = RAT if RAT in tys else INT
             if not tys <= {INT, RAT, NUM}:
                 self.bad(e, "literal list of non-numbers")
@@ -267,14 +335,24 @@ class _Tr(ast.NodeVisitor):
         saved = dict(self.env)
         tmp = self.fresh("it")
         lines = self.bind_target(g.target, et, tmp)
-        conds = [self.prop(c) for c in g.ifs]
-        body, bt = self.expr(e.elt)
+        ix = self.fresh("ix")
+        self.ix_stack.append(ix)
+        try:
+            conds = [self.prop(c) for c in g.ifs]
+            if ix in self.ix_used:
+                self.bad(e, "a variate-stream call in the filter of a comprehension")
+            body, bt = self.expr(e.elt)
+        finally:
+            self.ix_stack.pop()
         if bt == NUM:
             body, bt = f"({body} : Int)", INT
         self.env = saved
         binds = "; ".join(lines)
         if conds:
             it = f"(List.filter (fun ({tmp} : {et}) => {binds}; decide ({' ∧ '.join(conds)})) {it})"
+        if ix in self.ix_used:                     # PyLite 4: the element calls a variate stream: it needs its position
+            return (f"(List.map (fun ({tmp}_p : Int × {atom(et)}) => let {ix} : Int := {tmp}_p.1; let {tmp} : {et} := {tmp}_p.2; "
+                    f"{binds}; {body}) (Rpylib.Py.enumerate {it}))"), list_of(bt)
         return f"(List.map (fun ({tmp} : {et}) => {binds}; {body}) {it})", list_of(bt)
 
     def join_num(self, node, a, ta, b, tb):
@@ -301,6 +379,10 @@ class _Tr(ast.NodeVisitor):
                 nm, ty = self.fn.const_exprs[key]
                 self.add_param(nm, ty)
                 return nm, ty
+        if self.fn.opts:
+            r3 = self.pylite3_expr(e)
+            if r3 is not None:
+                return r3
         if isinstance(e, ast.Constant):
             v = e.value
             if isinstance(v, bool):
@@ -314,12 +396,20 @@ class _Tr(ast.NodeVisitor):
                 return f"(({fr.numerator} : Rat) / {fr.denominator})", RAT
             self.bad(e, f"constant {v!r}")
         if isinstance(e, ast.Name):
+            if e.id in self.iters and not getattr(self, "iter_ok", False):
+                self.bad(e, f"the one-shot iterator `{e.id}` is used other than by next() / one for statement")
             if e.id in self.env:
                 return lname(e.id), self.env[e.id]
             if e.id in self.fn.consts:
                 return self.fn.consts[e.id]
+            if e.id in getattr(self.unit, "consts", {}):          # a module-level constant translated from the source
+                if e.id in self.unit.const_bad:
+                    self.bad(e, f"module constant {e.id}: {self.unit.const_bad[e.id]}")
+                return lname(e.id), self.unit.consts[e.id]
             self.bad(e, f"free name {e.id}")
         if isinstance(e, ast.Attribute):
+            if e.attr == "size" and isinstance(e.value, ast.Name) and is_list(self.env.get(e.value.id, "")):
+                return f"((List.length {lname(e.value.id)} : Nat) : Int)", INT      # ndarray.size of a 1-d array
             dotted = _dotted(e)
             if dotted and dotted.split(".")[0] in self.alias:
                 root, _, rest = dotted.partition(".")
@@ -328,7 +418,7 @@ class _Tr(ast.NodeVisitor):
                 return self.fn.consts[dotted]
             if dotted and dotted in self.fn.opaque_fns:         # a bare reference to a declared callable: a function value
                 nm, atys, rty = self.fn.opaque_fns[dotted]
-                self.add_param(nm, " → ".join(list(atys) + [rty]))
+                self.add_param(nm, _stream_ty(" → ".join(list(atys) + [rty])))
                 return nm, "fn:" + " → ".join(list(atys) + [rty])
             if dotted and dotted.startswith("self.") and dotted[5:] in self.fn.self_attrs and "." in dotted[5:]:
                 ty = self.fn.self_attrs[dotted[5:]]
@@ -344,12 +434,16 @@ class _Tr(ast.NodeVisitor):
                 self.bad(e, f"self.{e.attr} is not declared in the spec")
             if isinstance(e.value, ast.Name) and e.value.id in ("np", "numpy", "math") and e.attr == "inf":
                 self.bad(e, "infinity")
+            if e.attr == "size" and isinstance(e.value, ast.Name) and self.env.get(e.value.id) in (INT, RAT):
+                return "1", NUM                        # PyLite 4: `.size` of a numpy scalar (an element of a 1-d array)
             self.bad(e, "attribute access")
         if isinstance(e, ast.UnaryOp):
             s, t = self.expr(e.operand)
             if isinstance(e.op, ast.USub):
                 if t == BOOL:
                     self.bad(e, "minus of a bool")
+                if is_list(t):
+                    self.bad(e, "minus of a list")
                 return f"(-{s})", t
             if isinstance(e.op, ast.Not):
                 return f"(!{self.as_bool(e.operand)})", BOOL
@@ -357,15 +451,37 @@ class _Tr(ast.NodeVisitor):
                 return s, t
             self.bad(e, "unary operator")
         if isinstance(e, ast.BinOp):
+            if isinstance(e.op, ast.Mult) and isinstance(e.left, ast.List) and e.left.elts:
+                # `[x, ..] * n`: n copies of the literal list, concatenated (n <= 0 gives the empty list: Int.toNat)
+                parts = [self.expr(x) for x in e.left.elts]
+                tys = {t for _, t in parts if t != NUM}
+                if len(tys) == 1 and (is_list(next(iter(tys))) or next(iter(tys)) in (INT, RAT)):
+                    et = next(iter(tys))
+                    n = self.expr_as(e.right, INT)
+                    elts = [s_ if t_ != NUM else f"({s_} : {et})" for s_, t_ in parts]
+                    if len(elts) == 1:
+                        return f"(List.replicate (Int.toNat {n}) {elts[0]})", list_of(et)
+                    return f"(List.flatten (List.replicate (Int.toNat {n}) [{', '.join(elts)}]))", list_of(et)
             a, ta = self.expr(e.left)
             b, tb = self.expr(e.right)
             op = e.op
+            r3 = self.pylite3_binop(e, a, ta, b, tb)
+            if r3 is not None:
+                return r3
+            r4 = self.pylite4_binop(e, a, ta, b, tb)
+            if r4 is not None:
+                return r4
             if isinstance(op, ast.Pow):
                 if isinstance(e.right, ast.Constant) and isinstance(e.right.value, int) and e.right.value >= 0:
                     return f"({a} ^ ({e.right.value} : Nat))", (INT if ta == NUM else ta)
                 if tb in (INT,) and ta in (INT, NUM):
                     base = a if ta == INT else f"({a} : Int)"
                     return f"({base} ^ (Int.toNat {b}))", INT
+                if isinstance(e.left, ast.Constant) and type(e.left.value) is int and f"{e.left.value}**" in self.fn.fn_params \
+                        and tb in (RAT, INT, NUM):
+                    nm = self.fn.fn_params[f"{e.left.value}**"]        # `2 ** x`, x real: the function parameter `pow2 x`
+                    self.add_param(nm, "Rat → Rat")
+                    return f"({nm} {self.coerce(b, tb, RAT) if tb != NUM else '(' + b + ' : Rat)'})", RAT
                 self.bad(e, "power with a non-integer exponent")
             if isinstance(op, ast.FloorDiv) or isinstance(op, ast.Mod):
                 if RAT in (ta, tb):
@@ -419,9 +535,15 @@ class _Tr(ast.NodeVisitor):
                 if not 0 <= i < len(tys):
                     self.bad(e, "tuple index out of range")
                 return self.proj(lname(e.value.id), i, len(tys)), tys[i]
+            if isinstance(e.value, ast.Attribute) and e.value.attr == "shape" and isinstance(e.slice, ast.Constant) \
+                    and e.slice.value == 0 and isinstance(e.value.value, ast.Name) and is_list(self.env.get(e.value.value.id, "")):
+                return f"((List.length {lname(e.value.value.id)} : Nat) : Int)", INT      # PyLite 4: ndarray.shape[0]
             vs, vt = self.expr(e.value)
             if is_list(vt):
                 if isinstance(e.slice, ast.Slice):
+                    if e.slice.step is not None and e.slice.lower is None and e.slice.upper is None \
+                            and _norm_expr(e.slice.step) == "-1":
+                        return f"(List.reverse {vs})", vt                  # xs[::-1]
                     if e.slice.step is not None:
                         self.bad(e, "slice with a step")
                     out = vs
@@ -459,12 +581,31 @@ class _Tr(ast.NodeVisitor):
         lst = self.list_call(e, fdot)
         if lst is not None:
             return lst
+        r4 = self.pylite4_call(e, fdot)
+        if r4 is not None:
+            return r4
+        ndc = self.nd_call(e, fdot)
+        if ndc is not None:
+            return ndc
+        kwnames = self.fn.opts.get("opaque_kwargs", {}).get(fdot) if fdot in self.fn.opaque_fns else None
+        if kwnames and e.keywords:
+            # keyword arguments of a declared opaque callable whose parameter names the spec gives: put them in position
+            given = dict(zip(kwnames, e.args))
+            for kw_ in e.keywords:
+                if kw_.arg is None or kw_.arg not in kwnames or kw_.arg in given:
+                    self.bad(e, f"keyword argument {kw_.arg} of {fdot}")
+                given[kw_.arg] = kw_.value
+            if len(e.args) > len(kwnames) or any(n_ not in given for n_ in kwnames):
+                self.bad(e, f"call of {fdot}: arguments {sorted(given)} for parameters {kwnames}")
+            e = ast.copy_location(ast.Call(func=e.func, args=[given[n_] for n_ in kwnames], keywords=[]), e)
         if e.keywords and not self.unit_callee(e, fdot):
             self.bad(e, "keyword arguments")
         if fdot in self.fn.fn_params and len(e.args) == 1:
             nm = self.fn.fn_params[fdot]
             self.add_param(nm, "Rat → Rat")
             s, t = self.expr(e.args[0])
+            if is_list(t) and elem_of(t) in (INT, RAT):          # PyLite 4: a numpy ufunc on a 1-d array
+                return f"(List.map {nm} {self.coerce(s, t, 'List Rat')})", "List Rat"
             return f"({nm} {self.coerce(s, t, RAT) if t != NUM else '(' + s + ' : Rat)'})", RAT
         if isinstance(f, ast.Name) and self.env.get(f.id, "").startswith("fn:"):
             tys = split_top(self.env[f.id][3:], "→")
@@ -522,6 +663,8 @@ class _Tr(ast.NodeVisitor):
             return f"({s} ^ ({e.args[1].value} : Nat))", (INT if t == NUM else t)
         if name == "int" and len(args) == 1 and args[0][1] in (INT, NUM):
             return args[0][0], INT
+        if name == "int" and len(args) == 1 and args[0][1] == RAT:          # PyLite 3: truncation toward zero
+            return f"(Rpylib.Py.truncInt {args[0][0]})", INT
         if name == "float" and len(args) == 1:
             s, t = args[0]
             return (self.coerce(s, t, RAT) if t != NUM else f"({s} : Rat)"), RAT
@@ -535,6 +678,8 @@ class _Tr(ast.NodeVisitor):
         for cand in (name, (self.cls + "." + name) if self.cls and "." not in name else None):
             if cand and cand in self.unit.fns:
                 callee = self.unit.fns[cand]
+                if callee.stores:
+                    self.bad(e, f"call of {cand}, which stores attributes")
                 sig = _signature(self.unit, callee)
                 given = dict(zip([n for n, _ in sig["py_params"]], e.args))
                 if len(e.args) > len(sig["py_params"]):
@@ -592,11 +737,20 @@ class _Tr(ast.NodeVisitor):
     def list_call(self, e, fdot):
         """built-ins on lists; None when `e` is not one of them"""
         a, kw = e.args, {k.arg: k.value for k in e.keywords}
+        if fdot in ("product", "itertools.product", "zip") and len(a) == 1 and isinstance(a[0], ast.Starred) and not kw:
+            # as a value: the list of all results.  Python gives a one-shot iterator: a local bound to it may only be
+            # advanced with `next(x)` and consumed by ONE `for` statement (see `block`, `for_loop`); unpacking is fine
+            s_, et = self.iterable(e)
+            return s_, list_of(et)
         if fdot == "len" and len(a) == 1 and not kw:
             s_, t_ = self.expr(a[0])
             if is_list(t_):
                 return f"((List.length {s_} : Nat) : Int)", INT
             self.bad(e, f"len of a {t_}")
+        if isinstance(e.func, ast.Attribute) and e.func.attr == "index" and isinstance(e.func.value, ast.Name) \
+                and is_list(self.env.get(e.func.value.id, "")) and len(a) == 1 and not kw:
+            lt = self.env[e.func.value.id]             # (C12) xs.index(v): position of the first occurrence (Python raises if absent)
+            return f"(Rpylib.Py.indexOf {lname(e.func.value.id)} {self.expr_as(a[0], elem_of(lt))})", INT
         if fdot in ("sum", "np.sum", "numpy.sum", "math.fsum") and len(a) == 1 and not kw:
             s_, et = self.iterable(a[0])
             if et == BOOL:
@@ -607,6 +761,8 @@ class _Tr(ast.NodeVisitor):
             return (f"(Rpylib.Py.rprod {s_})", RAT) if et == RAT else (f"(Rpylib.Py.iprod {s_})", INT)
         if fdot in ("np.zeros", "numpy.zeros") and len(a) + len([k for k in kw if k == "shape"]) == 1 and set(kw) <= {"shape", "dtype"}:
             n = a[0] if a else kw["shape"]
+            if isinstance(kw.get("dtype"), ast.Name) and kw["dtype"].id == "int" and self.fn.opts:     # PyLite 3
+                return f"(Rpylib.Py.izeros {self.expr_as(n, INT)})", "List Int"
             return f"(Rpylib.Py.zeros {self.expr_as(n, INT)})", "List Rat"
         if fdot in ("np.insert", "numpy.insert") and len(a) == 3 and not kw:
             s_, t_ = self.expr(a[0])
@@ -619,6 +775,26 @@ class _Tr(ast.NodeVisitor):
         if fdot in ("np.searchsorted", "numpy.searchsorted") and len(a) == 2 and not kw:
             s_, et = self.iterable(a[0])
             return f"(Rpylib.Py.searchsorted {self.coerce(s_, list_of(et), 'List Rat')} {self.expr_as(a[1], RAT)})", INT
+        if fdot in ("np.linspace", "numpy.linspace") and len(a) + len(kw) == 3 and set(kw) <= {"start", "stop", "num"}:
+            names3 = ["start", "stop", "num"]
+            given3 = dict(zip(names3, a))
+            if any(k_ in given3 for k_ in kw):
+                self.bad(e, "np.linspace: an argument given twice")
+            given3.update(kw)
+            if set(given3) != set(names3):
+                self.bad(e, "np.linspace without start / stop / num")
+            return (f"(Rpylib.Py.linspace {self.expr_as(given3['start'], RAT)} {self.expr_as(given3['stop'], RAT)} "
+                    f"{self.expr_as(given3['num'], INT)})"), "List Rat"
+        if fdot in ("np.concatenate", "numpy.concatenate") and len(a) == 1 and not kw and isinstance(a[0], (ast.Tuple, ast.List)) \
+                and a[0].elts:
+            typed = [self.expr(x)[1] for x in a[0].elts if not isinstance(x, (ast.List, ast.Tuple))]
+            lt = next((t_ for t_ in typed if is_list(t_)), None)
+            if lt is None or any(not is_list(t_) for t_ in typed):
+                self.bad(e, "np.concatenate of something that is not a list")
+            if any(t_ != lt for t_ in typed):
+                lt = "List Rat" if {elem_of(t_) for t_ in typed} <= {INT, RAT} else self.bad(e, "np.concatenate of lists of different types")
+            parts = [self.expr_as(x, lt) for x in a[0].elts]
+            return "(" + " ++ ".join(parts) + ")", lt
         if fdot in ("list", "tuple", "np.array", "numpy.array", "np.asarray") and len(a) == 1 and not kw:
             if not isinstance(a[0], (ast.List, ast.Tuple, ast.ListComp, ast.GeneratorExp)) and fdot.startswith("n"):
                 s0, t0 = self.expr(a[0])
@@ -641,6 +817,9 @@ class _Tr(ast.NodeVisitor):
             for c_ in cs[1:]:
                 out = f"({fnm} {out} {c_})"
             return out, t_
+        r4 = self.pylite4_list_call(e, fdot, a, kw)
+        if r4 is not None:
+            return r4
         if fdot in ("partial", "functools.partial") and len(a) >= 1 and not kw:
             fs, ft = self.expr(a[0])
             if not (ft and ft.startswith("fn:")):
@@ -725,6 +904,8 @@ class _Tr(ast.NodeVisitor):
             return f"({s} = true)"
         if t in (INT, RAT):
             return f"({s} ≠ 0)"
+        if is_list(t):                                # PyLite 3: a list / deque is true when it is not empty
+            return f"({s} ≠ [])"
         self.bad(e, f"condition of type {t}")
 
     # ---- statements: a block is translated to one Lean term ------------------------------------------------------
@@ -732,12 +913,42 @@ class _Tr(ast.NodeVisitor):
         """translate `stmts` followed by the continuation `k` (a list of statements, possibly empty)"""
         stmts = list(stmts) + list(k)
         if not stmts:
+            if self.fn.stores:
+                return self.stores_tuple()
             self.bad(self.node, "control reaches the end of the function without a return")
         s, rest = stmts[0], stmts[1:]
+        r3 = self.pylite3_stmt(s, rest)
+        if r3 is not None:
+            return r3
+        rnd = self.nd_stmt(s, rest)
+        if rnd is not None:
+            return rnd
+        rit = self.iter_stmt(s, rest)
+        if rit is not None:
+            return rit
         if isinstance(s, ast.Expr) and isinstance(s.value, ast.Constant) and isinstance(s.value.value, str):
             return self.block(rest, [])
         if isinstance(s, (ast.Pass, ast.Assert)):
             return self.block(rest, [])
+        if isinstance(s, ast.Return) and self.fn.stores:
+            if s.value is None or (isinstance(s.value, ast.Constant) and s.value.value is None) \
+                    or (isinstance(s.value, ast.Name) and s.value.id == "self"):
+                return self.stores_tuple()
+            self.bad(s, "a function with attribute stores returns a value")
+        if isinstance(s, ast.Expr) and self.fn.ctor and _is_super_init(s.value):
+            kws = {k_.arg: k_.value for k_ in s.value.keywords}
+            if s.value.args or None in kws or set(kws) != set(self.fn.ctor):
+                self.bad(s, f"constructor call whose keyword arguments are not exactly {sorted(self.fn.ctor)}")
+            if not (not rest or (len(rest) == 1 and isinstance(rest[0], ast.Return) and isinstance(rest[0].value, ast.Name))):
+                self.bad(s, "statements after the constructor call")
+            wants = split_top(self.fn.ret, "×") if self.fn.ret else [None] * len(self.fn.ctor)
+            if len(wants) != len(self.fn.ctor):
+                self.bad(s, "`ret` does not have one component per constructor argument")
+            return "(" + ", ".join(self.expr_as(kws[k_], _strip_parens(w_) if w_ else None)
+                                   for k_, w_ in zip(self.fn.ctor, wants)) + ")"
+        if isinstance(s, ast.Assign) and self.fn.ctor and len(s.targets) == 1 and isinstance(s.targets[0], ast.Name) \
+                and _norm_expr(s.value) == "cls.__new__(cls)":
+            return self.block(rest, [])                   # the object the constructor call below fills
         if isinstance(s, ast.Return):
             if s.value is None:
                 self.bad(s, "return without a value")
@@ -757,11 +968,27 @@ class _Tr(ast.NodeVisitor):
             if len(s.targets) != 1:
                 self.bad(s, "chained assignment")
             tgt = s.targets[0]
+            if isinstance(tgt, ast.Name) and isinstance(s.value, ast.Call) and _dotted(s.value.func) == "next" \
+                    and len(s.value.args) == 2 and not s.value.keywords and isinstance(s.value.args[1], ast.Constant) \
+                    and s.value.args[1].value is None and isinstance(s.value.args[0], (ast.GeneratorExp, ast.ListComp)):
+                # (C12) x = next((.. for .. if ..), None): the first element if there is one; the flag `x_none` says whether
+                # there is none (`x is None` / `x is not None` read the flag, like for an optional parameter)
+                lst, lt = self.comprehension(s.value.args[0])
+                et = elem_of(lt)
+                tmp = self.fresh()
+                saved, saved_flags = dict(self.env), dict(self.none_flag)
+                self.env[tgt.id] = et
+                self.none_flag[tgt.id] = lname(tgt.id) + "_none"
+                body = self.block(rest, [])
+                self.env, self.none_flag = saved, saved_flags
+                return (f"let {tmp} : {lt} := {lst}\nlet {lname(tgt.id)} : {et} := (List.headD {tmp} default)\n"
+                        f"let {lname(tgt.id)}_none : Bool := (List.isEmpty {tmp})\n{body}")
             if isinstance(tgt, ast.Name):
                 dv = _dotted(s.value) if isinstance(s.value, (ast.Attribute, ast.Name)) else None
                 if dv and dv.split(".")[0] in self.alias:
                     dv = self.alias[dv.split(".")[0]] + dv[len(dv.split(".")[0]):]
-                if dv and dv.startswith("self.") and any(k.startswith(dv[5:] + ".") for k in self.fn.self_attrs):
+                if dv and dv.startswith("self.") and (any(k.startswith(dv[5:] + ".") for k in self.fn.self_attrs)
+                                                      or any(k.startswith(dv + ".") for k in self.fn.opaque_fns)):
                     saved_alias = dict(self.alias)            # an object alias (params = self.parameters): no value to bind
                     self.alias[tgt.id] = dv
                     body = self.block(rest, [])
@@ -776,7 +1003,7 @@ class _Tr(ast.NodeVisitor):
                     self.none_flag[tgt.id] = "false"
                 body = self.block(rest, [])
                 self.env, self.none_flag = saved, saved_flags
-                return f"let {lname(tgt.id)} : {t[3:] if t.startswith('fn:') else t} := {v}\n{body}"
+                return f"let {lname(tgt.id)} : {_stream_ty(t[3:]) if t.startswith('fn:') else t} := {v}\n{body}"
             if isinstance(tgt, ast.Tuple) and all(isinstance(x, ast.Name) for x in tgt.elts):
                 v, t = self.expr(s.value)
                 tmp = self.fresh()
@@ -794,6 +1021,35 @@ class _Tr(ast.NodeVisitor):
                         lines.append(f"let {lname(x.id)} : {ty} := {self.proj(tmp, i, len(tys))}")
                 for x, ty in zip(tgt.elts, tys):
                     self.env[x.id] = ty
+                body = self.block(rest, [])
+                self.env = saved
+                return "\n".join(lines) + "\n" + body
+            if isinstance(tgt, ast.Tuple) and isinstance(s.value, ast.Tuple) and len(tgt.elts) == len(s.value.elts) \
+                    and any(isinstance(x, ast.Subscript) for x in tgt.elts) \
+                    and all(isinstance(x, ast.Name) or (isinstance(x, ast.Subscript) and isinstance(x.value, ast.Name)
+                                                        and is_list(self.env.get(x.value.id, "")) and not isinstance(x.slice, ast.Slice))
+                            for x in tgt.elts):
+                # (C12) xs[i], y = e1, e2: the right-hand sides are evaluated first, then the targets are assigned left to right
+                lines, tmps = [], []
+                for x, v in zip(tgt.elts, s.value.elts):
+                    if isinstance(x, ast.Subscript):
+                        ty = elem_of(self.env[x.value.id])
+                        val = self.expr_as(v, ty)
+                    else:
+                        val, ty = self.expr(v)
+                        if ty == NUM:
+                            val, ty = f"({val} : Int)", INT
+                    tmp = self.fresh()
+                    lines.append(f"let {tmp} : {ty} := {val}")
+                    tmps.append((tmp, ty))
+                saved = dict(self.env)
+                for x, (tmp, ty) in zip(tgt.elts, tmps):
+                    if isinstance(x, ast.Subscript):
+                        lt = self.env[x.value.id]
+                        lines.append(f"let {lname(x.value.id)} : {lt} := (Rpylib.Py.setAt {lname(x.value.id)} {self.expr_as(x.slice, INT)} {tmp})")
+                    else:
+                        lines.append(f"let {lname(x.id)} : {ty} := {tmp}")
+                        self.env[x.id] = ty
                 body = self.block(rest, [])
                 self.env = saved
                 return "\n".join(lines) + "\n" + body
@@ -833,9 +1089,75 @@ class _Tr(ast.NodeVisitor):
             return f"if {c} then\n{textwrap.indent(a, '  ')}\nelse\n{textwrap.indent(b, '  ')}"
         self.bad(s, f"statement {type(s).__name__}")
 
+    def stores_tuple(self) -> str:
+        vals = [self.coerce(lname(_store_name(a_)), self.env[_store_name(a_)], t_) for a_, t_ in self.fn.stores.items()]
+        return "(" + ", ".join(vals) + ")" if len(vals) != 1 else vals[0]
+
+    def live_iteration_guard(self, s: ast.For):
+        """Python iterates over a list *live*: an in-place change of the iterated list (`xs[i] = v`, `xs.pop(i)`, `xs += ..`)
+        made by the body is seen by the following iterations, the fold iterates over the value on entry.  The two agree when the
+        only in-place changes are `xs[i] = v` at the index `i` of the current item of `for i, .. in enumerate(xs)`."""
+        it_names = {n.id for n in ast.walk(s.iter) if isinstance(n, ast.Name)}
+        for n in ast.walk(s):
+            tgt, kind = None, None
+            if isinstance(n, ast.Assign) and len(n.targets) == 1 and isinstance(n.targets[0], ast.Subscript) \
+                    and isinstance(n.targets[0].value, ast.Name):
+                tgt, kind = n.targets[0].value.id, "item"
+            elif isinstance(n, ast.AugAssign) and isinstance(n.target, ast.Name) and is_list(self.env.get(n.target.id, "")):
+                tgt, kind = n.target.id, "aug"
+            elif isinstance(n, ast.AugAssign) and isinstance(n.target, ast.Subscript) and isinstance(n.target.value, ast.Name):
+                tgt, kind = n.target.value.id, "aug"
+            elif isinstance(n, ast.Expr) and isinstance(n.value, ast.Call) and isinstance(n.value.func, ast.Attribute) \
+                    and n.value.func.attr == "pop" and isinstance(n.value.func.value, ast.Name):
+                tgt, kind = n.value.func.value.id, "pop"
+            if tgt is None or tgt not in it_names or not is_list(self.env.get(tgt, "")):
+                continue
+            ok = False
+            if kind == "item" and isinstance(s.iter, ast.Call) and _dotted(s.iter.func) == "enumerate" and len(s.iter.args) == 1 \
+                    and isinstance(s.iter.args[0], ast.Name) and s.iter.args[0].id == tgt \
+                    and isinstance(s.target, ast.Tuple) and isinstance(s.target.elts[0], ast.Name):
+                i = s.target.elts[0].id
+                rebinds_i = any(isinstance(x, ast.Name) and x.id == i and isinstance(x.ctx, ast.Store)
+                                for b_ in s.body for x in ast.walk(b_))
+                ok = isinstance(n.targets[0].slice, ast.Name) and n.targets[0].slice.id == i and not rebinds_i
+            if not ok:
+                self.bad(n, f"the loop body changes the list `{tgt}` it iterates over in place")
+
+    # ---- one-shot iterators (`x = product(*xss)`, `next(x)`), statically decided tests --------------------------------
+    def iter_stmt(self, s, rest):
+        """None when `s` is none of: a test the spec decides statically (`opts["static_tests"]`: the definition is the
+        function *specialised* to that case, said in its doc line), `x = product(*xss)` / `x = zip(*xss)` (x is bound to the
+        list of all results and remembered as a one-shot iterator: afterwards only `next(x)` statements and ONE `for` over it
+        are translatable), `next(x)` as a statement (drops the first result; Python raises StopIteration on an exhausted
+        iterator where the list stays empty: the domain is the caller's)."""
+        if isinstance(s, ast.If) and _norm_expr(s.test) in self.fn.opts.get("static_tests", {}):
+            return self.block(s.body if self.fn.opts["static_tests"][_norm_expr(s.test)] else s.orelse, rest)
+        if isinstance(s, ast.Assign) and len(s.targets) == 1 and isinstance(s.targets[0], ast.Name) \
+                and isinstance(s.value, ast.Call) and _dotted(s.value.func) in ("product", "itertools.product", "zip") \
+                and len(s.value.args) == 1 and isinstance(s.value.args[0], ast.Starred) and not s.value.keywords:
+            v, t = self.expr(s.value)
+            nm = s.targets[0].id
+            saved, saved_it = dict(self.env), set(self.iters)
+            self.env[nm] = t
+            self.iters.add(nm)
+            body = self.block(rest, [])
+            self.env, self.iters = saved, saved_it
+            return f"let {lname(nm)} : {t} := {v}\n{body}"
+        if isinstance(s, ast.Assign) and len(s.targets) == 1 and isinstance(s.targets[0], ast.Name) \
+                and s.targets[0].id in self.iters:
+            self.bad(s, "a one-shot iterator is rebound")
+        if isinstance(s, ast.Expr) and isinstance(s.value, ast.Call) and _dotted(s.value.func) == "next" \
+                and len(s.value.args) == 1 and not s.value.keywords and isinstance(s.value.args[0], ast.Name) \
+                and s.value.args[0].id in self.iters:
+            nm = s.value.args[0].id
+            body = self.block(rest, [])
+            return f"let {lname(nm)} : {self.env[nm]} := (List.drop 1 {lname(nm)})\n{body}"
+        return None
+
     def for_loop(self, s: ast.For, rest) -> str:
         if s.orelse:
             self.bad(s, "for ... else")
+        self.live_iteration_guard(s)
         for n in ast.walk(s):
             if isinstance(n, (ast.Return, ast.Break, ast.Continue, ast.While, ast.Raise)):
                 self.bad(n, f"{type(n).__name__} inside a for loop")
@@ -853,10 +1175,20 @@ class _Tr(ast.NodeVisitor):
                 for x in ast.walk(t_):
                     if isinstance(x, ast.Name) and x.id not in assigned:
                         assigned.append(x.id)
+        assigned += [n for n in self.pylite3_mutated(s) if n not in assigned]
         state = [n for n in assigned if n in self.env]           # outer variables the body rebinds; the others are loop-local
+        if self.fn.opts.get("sorted_state"):
+            state.sort()
         if not state:
             self.bad(s, "for loop that assigns no outer variable")
-        it, et = self.iterable(s.iter)
+        consumed = s.iter.id if isinstance(s.iter, ast.Name) and s.iter.id in self.iters else None
+        self.iter_ok = consumed is not None
+        try:
+            it, et = self.iterable(s.iter)
+        finally:
+            self.iter_ok = False
+        if consumed:                       # exhausted by this loop: any later use of the name is untranslatable
+            self.env.pop(consumed, None)
         types = [self.env[n] for n in state]
         saved_outer = (dict(self.env), self.state_types, self.yield_types, dict(self.none_flag))
         body = None
@@ -870,10 +1202,18 @@ class _Tr(ast.NodeVisitor):
             lines = [f"let {lname(n)} : {t_} := {self.proj(st, i, len(state)) if len(state) > 1 else st}"
                      for i, (n, t_) in enumerate(zip(state, types))]
             lines += self.bind_target(s.target, et, tmp)
-            inner = self.block(list(s.body) + [_Yield(state)], [])
+            ix = self.fresh("ix")
+            self.ix_stack.append(ix)
+            try:
+                inner = self.block(list(s.body) + [_Yield(state)], [])
+            finally:
+                self.ix_stack.pop()
             got = self.yield_types
             if got == types:
                 body = "\n".join(lines) + "\n" + inner
+                if ix in self.ix_used:             # PyLite 4: the body calls a variate stream: fold over (position, item)
+                    body = f"let {ix} : Int := {tmp}_p.1\nlet {tmp} : {et} := {tmp}_p.2\n" + body
+                    tmp, et, it = tmp + "_p", f"Int × {atom(et)}", f"(Rpylib.Py.enumerate {it})"
                 break
             new = []
             for a_, b_ in zip(types, got):
@@ -899,6 +1239,419 @@ class _Tr(ast.NodeVisitor):
         tail = self.block(rest, [])
         self.env = saved
         return "\n".join(out) + "\n" + tail
+
+    # ---- PyLite 4: numpy 1-d arrays as lists (element-wise arithmetic, np.diff / np.append / np.empty), variate streams ----
+    def pylite4_binop(self, e, a, ta, b, tb):
+        """element-wise arithmetic of 1-d numpy arrays, only in the forms that are a TypeError on Python lists (so the operands
+        must be arrays): array * array, array - array, array / array; float-scalar + array, array + float-scalar (and -, *, /
+        with a float scalar).  `list + list`, `int * list` (concatenation / repetition on Python lists) stay untranslatable.
+        numpy raises for unequal lengths where `zipWith` truncates: the domain is the caller's."""
+        if not (is_list(ta) or is_list(tb)):
+            return None
+        sym = {ast.Add: "+", ast.Sub: "-", ast.Mult: "*", ast.Div: "/"}.get(type(e.op))
+        if sym is None:
+            return None
+        if is_list(ta) and is_list(tb):
+            if sym == "+" or not {elem_of(ta), elem_of(tb)} <= {INT, RAT}:
+                return None
+            return (f"(List.zipWith (fun (x_ y_ : Rat) => x_ {sym} y_) {self.coerce(a, ta, 'List Rat')} "
+                    f"{self.coerce(b, tb, 'List Rat')})"), "List Rat"
+        (vs, vt), (ss, st), left = ((a, ta), (b, tb), True) if is_list(ta) else ((b, tb), (a, ta), False)
+        if elem_of(vt) not in (INT, RAT) or st != RAT:
+            return None
+        if sym == "/" and not left:
+            return None
+        body = f"x_ {sym} {ss}" if left else f"{ss} {sym} x_"
+        return f"(List.map (fun (x_ : Rat) => {body}) {self.coerce(vs, vt, 'List Rat')})", "List Rat"
+
+    def stream_tag(self, node, stream) -> str:
+        """the argument of a variate-stream call (`@` in the declared argument types of an opaque callable): the list
+        [number of this call site among the call sites of the same sampler, positions in the enclosing loops /
+        comprehensions].  Two dynamic calls of one sampler get different tags, so the (pure) Lean function parameter can
+        return a fresh variate at every call, as the sampler does."""
+        mine = [k for k in self.sites if k[0] == stream]
+        site = self.sites.setdefault((stream, id(node)), len(mine))
+        self.ix_used.update(self.ix_stack)
+        return "[" + ", ".join([str(site)] + list(self.ix_stack)) + "]"
+
+    def stream_of_local(self, name):
+        """the declared opaque callable a local name is bound to (`f = self.process.nb_jump_dt`), else the name itself"""
+        found = {_dotted(n.value) for n in ast.walk(self.node) if isinstance(n, ast.Assign) and len(n.targets) == 1
+                 and isinstance(n.targets[0], ast.Name) and n.targets[0].id == name}
+        if len(found) == 1 and next(iter(found)) in self.fn.opaque_fns:
+            return next(iter(found))
+        if found:
+            self.bad(self.node, f"the local sampler {name} is bound to several things")
+        return name
+
+    def pylite4_call(self, e, fdot):
+        """calls of declared opaque callables (directly or through a local alias) with a stream tag and / or with their single
+        argument passed by keyword; None otherwise"""
+        f = e.func
+        if isinstance(f, ast.Name) and self.env.get(f.id, "").startswith("fn:"):
+            head, tys = lname(f.id), split_top(self.env[f.id][3:], "→")
+            atys, rty = tys[:-1], tys[-1]
+            stream = self.stream_of_local(f.id) if atys and atys[0] == "@" else None
+        elif fdot in self.fn.opaque_fns:
+            head, atys, rty = self.fn.opaque_fns[fdot]
+            atys, stream = list(atys), fdot
+        else:
+            return None
+        tagged = bool(atys) and atys[0] == "@"
+        real = atys[1:] if tagged else atys
+        nodes = list(e.args)
+        if e.keywords:
+            if len(real) != 1 or nodes or len(e.keywords) != 1 or e.keywords[0].arg is None:
+                return None                       # keyword arguments: only the single parameter of a one-parameter callable
+            nodes = [e.keywords[0].value]
+        elif not tagged:
+            return None                           # the plain case is handled by the caller
+        if len(nodes) != len(real):
+            self.bad(e, f"call of {fdot or f.id} with {len(nodes)} arguments")
+        if fdot in self.fn.opaque_fns and not (isinstance(f, ast.Name) and f.id in self.env):
+            self.add_param(head, _stream_ty(" → ".join(list(atys) + [rty])))
+        parts = ([self.stream_tag(e, stream)] if tagged else []) + [self.expr_as(x, want) for x, want in zip(nodes, real)]
+        return "(" + " ".join([head] + parts) + ")", rty
+
+    def pylite4_list_call(self, e, fdot, a, kw):
+        if fdot in ("np.diff", "numpy.diff") and len(a) == 1 and set(kw) <= {"prepend"}:
+            s_, et = self.iterable(a[0])
+            s_ = self.coerce(s_, list_of(et), "List Rat")
+            if "prepend" in kw:
+                return f"(Rpylib.Py.diffFrom {self.expr_as(kw['prepend'], RAT)} {s_})", "List Rat"
+            return f"(Rpylib.Py.diff {s_})", "List Rat"
+        if fdot in ("np.empty", "numpy.empty") and len(a) + len([k for k in kw if k == "shape"]) == 1 and set(kw) <= {"shape", "dtype"}:
+            n = a[0] if a else kw["shape"]
+            if isinstance(kw.get("dtype"), ast.Name) and kw["dtype"].id != "float":
+                return None
+            if isinstance(n, ast.Constant) and n.value == 0:
+                return "([] : List Rat)", "List Rat"
+            # uninitialised memory: the opaque function Rpylib.Py.uninit of (call site, position) - nothing can be proved about
+            # its values, so theorems hold for every content (and the signature does not depend on np.empty vs np.zeros)
+            site = self.sites.setdefault(("np.empty", id(e)), len([k for k in self.sites if k[0] == "np.empty"]))
+            return f"(List.map (Rpylib.Py.uninit {site}) (Rpylib.Py.range 0 {self.expr_as(n, INT)}))", "List Rat"
+        if fdot in ("np.zeros_like", "numpy.zeros_like") and len(a) == 1 and set(kw) <= {"dtype"}:
+            s_, t_ = self.expr(a[0])
+            if is_list(t_) and elem_of(t_) in (INT, RAT) and not (isinstance(kw.get("dtype"), ast.Name) and kw["dtype"].id != "float"):
+                return f"(Rpylib.Py.zeros ((List.length {s_} : Nat) : Int))", "List Rat"
+            return None
+        if fdot in ("np.append", "numpy.append") and len(a) == 2 and not kw:
+            s_, t_ = self.expr(a[0])
+            if not (is_list(t_) and elem_of(t_) in (INT, RAT)):
+                return None
+            v_, vt = self.expr(a[1])                # np.append ravels both arguments
+            if vt in (INT, RAT, NUM):
+                return f"({s_} ++ [{self.coerce(v_, vt, elem_of(t_)) if vt != NUM else '(' + v_ + ' : ' + elem_of(t_) + ')'}])", t_
+            if is_list(vt) and is_list(elem_of(vt)) and elem_of(elem_of(vt)) == elem_of(t_):
+                return f"({s_} ++ List.flatten {v_})", t_
+            if is_list(vt) and (elem_of(vt) == elem_of(t_) or (elem_of(vt) == INT and elem_of(t_) == RAT)):
+                return f"({s_} ++ {self.coerce(v_, vt, t_)})", t_
+            return None
+        return None
+
+    # ---- PyLite 3: while loops (fuel), deques as lists, numpy vector scaling, `&` masks, counters -----------------------
+    def pylite3_binop(self, e, a, ta, b, tb):
+        op = e.op
+        if isinstance(op, ast.BitAnd) and isinstance(e.right, ast.Constant) and type(e.right.value) is int and ta == INT \
+                and e.right.value >= 0 and (e.right.value + 1) & e.right.value == 0:
+            return f"(Int.fmod {a} {e.right.value + 1})", INT      # x & (2^k - 1) == x % 2^k for every Python int
+        arrs = self.fn.opts.get("np_arrays") or ()
+        if self.fn.opts and isinstance(op, ast.Add) and is_list(ta) and ta == tb \
+                and not any(isinstance(x, ast.Name) and x.id in arrs for x in (e.left, e.right)):
+            return f"({a} ++ {b})", ta                                # Python lists: concatenation
+        if self.fn.opts and isinstance(op, ast.Mult):
+            for cnt, (cs, ct), lst, (ls, lt) in ((e.left, (a, ta), e.right, (b, tb)), (e.right, (b, tb), e.left, (a, ta))):
+                if isinstance(lst, ast.List) and is_list(lt) and ct in (INT, NUM):   # `k * [x, ..]`: repetition (k <= 0: empty)
+                    k = cs if ct == INT else f"({cs} : Int)"
+                    return f"(List.flatten (List.replicate (Int.toNat {k}) {ls}))", lt
+        if isinstance(op, (ast.Mult, ast.Div)):
+            for vec, (vs, vt), (ss, st), left in ((e.left, (a, ta), (b, tb), True), (e.right, (b, tb), (a, ta), False)):
+                if isinstance(vec, ast.Name) and vec.id in arrs and is_list(vt) and st in (INT, RAT, NUM):
+                    if isinstance(op, ast.Div) and not left:
+                        self.bad(e, "scalar / vector")
+                    et = RAT if (isinstance(op, ast.Div) or RAT in (elem_of(vt), st)) else INT
+                    sc = f"({ss} : {et})" if st == NUM else self.coerce(ss, st, et)
+                    x = "x_" if elem_of(vt) == et else f"((x_ : {elem_of(vt)}) : {et})"
+                    sym = "/" if isinstance(op, ast.Div) else "*"
+                    body = f"{x} {sym} {sc}" if left else f"{sc} {sym} {x}"
+                    return f"(List.map (fun (x_ : {elem_of(vt)}) => {body}) {vs})", list_of(et)
+        return None
+
+    def pylite3_expr(self, e):
+        """expressions of PyLite 3 (only for functions that declare `opts`); None when `e` is not one of them"""
+        if isinstance(e, ast.Attribute) and e.attr == "size" and isinstance(e.value, ast.Name) \
+                and is_list(self.env.get(e.value.id, "")):
+            return f"((List.length {lname(e.value.id)} : Nat) : Int)", INT          # numpy: v.size of a vector
+        if isinstance(e, ast.Call) and _dotted(e.func) in ("np.empty", "numpy.empty", "np.empty_like", "numpy.empty_like"):
+            # uninitialised numpy vectors: read as zeros (Python's content is arbitrary; code that reads an entry before
+            # writing it has no defined value either way)
+            kw = {k.arg: k.value for k in e.keywords}
+            if _dotted(e.func).endswith("empty_like") and len(e.args) == 1 and not kw:
+                s_, t_ = self.expr(e.args[0])
+                if is_list(t_) and elem_of(t_) in (INT, RAT):
+                    return (f"(Rpylib.Py.zeros ((List.length {s_} : Nat) : Int))", "List Rat") if elem_of(t_) == RAT \
+                        else (f"(Rpylib.Py.izeros ((List.length {s_} : Nat) : Int))", "List Int")
+            if _dotted(e.func).endswith("empty") and len(e.args) + ("shape" in kw) == 1 and set(kw) <= {"shape", "dtype"}:
+                n = self.expr_as(e.args[0] if e.args else kw["shape"], INT)
+                dt = _dotted(kw["dtype"]) if "dtype" in kw else "float"
+                if dt in ("int", "np.int16", "np.int32", "np.int64", "np.uint", "np.intp"):
+                    return f"(Rpylib.Py.izeros {n})", "List Int"
+                if dt in ("float", "np.float64"):
+                    return f"(Rpylib.Py.zeros {n})", "List Rat"
+        return None
+
+    def pylite3_mutated(self, node):
+        """names of lists the statements under `node` mutate through `.append(v)` / `.pop()` / `.pop(i)`"""
+        out = []
+        for n in ast.walk(node):
+            if isinstance(n, ast.Call) and isinstance(n.func, ast.Attribute) and n.func.attr in ("append", "pop") \
+                    and isinstance(n.func.value, ast.Name) and is_list(self.env.get(n.func.value.id, "")) \
+                    and n.func.value.id not in out:
+                out.append(n.func.value.id)
+        return out
+
+    def pylite3_stmt(self, s, rest):
+        """statements of PyLite 3; None when `s` is not one of them"""
+        o = self.fn.opts
+        if isinstance(s, ast.While):
+            return self.while_loop(s, rest)
+        if isinstance(s, ast.AugAssign) and _dotted(s.target) in (o.get("counters") or ()):
+            name = _dotted(s.target)
+            for n in ast.walk(self.node):
+                if isinstance(n, ast.Attribute) and isinstance(n.ctx, ast.Load) and _dotted(n) == name:
+                    self.bad(n, f"the counter {name} is read")
+            return self.block(rest, [])
+        call = s.value if isinstance(s, (ast.Expr, ast.Assign)) and isinstance(s.value, ast.Call) else None
+        if call is not None and isinstance(call.func, ast.Attribute) and isinstance(call.func.value, ast.Name) \
+                and is_list(self.env.get(call.func.value.id, "")) and not call.keywords:
+            nm, lt = call.func.value.id, self.env[call.func.value.id]
+            if isinstance(s, ast.Expr) and call.func.attr == "append" and len(call.args) == 1:
+                v = self.expr_as(call.args[0], elem_of(lt))
+                body = self.block(rest, [])
+                return f"let {lname(nm)} : {lt} := ({lname(nm)} ++ [{v}])\n{body}"
+            if call.func.attr == "pop" and len(call.args) == 0:
+                lines = []
+                saved = dict(self.env)
+                if isinstance(s, ast.Assign):
+                    if len(s.targets) != 1 or not isinstance(s.targets[0], ast.Name) or s.targets[0].id == nm:
+                        self.bad(s, "target of x.pop()")
+                    tg = s.targets[0].id
+                    lines.append(f"let {lname(tg)} : {elem_of(lt)} := (Rpylib.Py.idx {lname(nm)} (-1))")
+                    self.env[tg] = elem_of(lt)
+                lines.append(f"let {lname(nm)} : {lt} := (Rpylib.Py.popAt {lname(nm)} (-1))")
+                body = self.block(rest, [])
+                self.env = saved
+                return "\n".join(lines) + "\n" + body
+        if isinstance(s, ast.Assign) and len(s.targets) == 1 and isinstance(s.targets[0], ast.Name) \
+                and s.targets[0].id in (o.get("local_types") or {}):
+            v = s.value
+            empty = (isinstance(v, ast.Call) and _dotted(v.func) in ("deque", "collections.deque", "list") and not v.args
+                     and not v.keywords) or (isinstance(v, ast.List) and not v.elts)
+            if empty:
+                lt = o["local_types"][s.targets[0].id]
+                saved = dict(self.env)
+                self.env[s.targets[0].id] = lt
+                body = self.block(rest, [])
+                self.env = saved
+                return f"let {lname(s.targets[0].id)} : {lt} := []\n{body}"
+        return None
+
+    def while_loop(self, s: ast.While, rest) -> str:
+        """`while c: body` -> `Rpylib.Py.whileLoop (fun st => decide c) (fun st => body) fuel init`; the loop state is the
+        tuple of the outer variables the body rebinds; fuel exhausted with `c` still true -> the function's `err` value"""
+        fuel = self.fn.opts.get("loop_fuel")
+        if fuel is None or self.fn.err is None:
+            self.bad(s, "while loop (no `loop_fuel` / `err` declared in the spec)")
+        if s.orelse:
+            self.bad(s, "while ... else")
+        for n in ast.walk(s):
+            if isinstance(n, (ast.Return, ast.Break, ast.Continue, ast.Raise)) or (isinstance(n, ast.While) and n is not s):
+                self.bad(n, f"{type(n).__name__} inside a while loop")
+        assigned = []
+        for n in ast.walk(s):
+            tg = n.targets if isinstance(n, ast.Assign) else [n.target] if isinstance(n, (ast.AugAssign, ast.AnnAssign)) else []
+            for t_ in tg:
+                if isinstance(t_, ast.Attribute):
+                    continue
+                for x in ast.walk(t_.value if isinstance(t_, ast.Subscript) else t_):
+                    if isinstance(x, ast.Name) and x.id not in assigned:
+                        assigned.append(x.id)
+        assigned += [n for n in self.pylite3_mutated(s) if n not in assigned]
+        state = [n for n in assigned if n in self.env]
+        if self.fn.opts.get("sorted_state", True):
+            state.sort()
+        if not state:
+            self.bad(s, "while loop that assigns no outer variable")
+        types = [self.env[n] for n in state]
+        saved_outer = (dict(self.env), self.state_types, self.yield_types, dict(self.none_flag))
+        body = cond = None
+        for _attempt in range(3):
+            self.env = dict(saved_outer[0])
+            for n, t_ in zip(state, types):
+                self.env[n] = t_
+            self.state_types, self.yield_types = list(types), None
+            st = self.fresh("st")
+            lines = [f"let {lname(n)} : {t_} := {self.proj(st, i, len(state)) if len(state) > 1 else st}"
+                     for i, (n, t_) in enumerate(zip(state, types))]
+            cond = "\n".join(lines) + f"\ndecide {self.prop(s.test)}"
+            inner = self.block(list(s.body) + [_Yield(state)], [])
+            got = self.yield_types
+            if got == types:
+                body = "\n".join(lines) + "\n" + inner
+                break
+            new = []
+            for a_, b_ in zip(types, got):
+                if a_ == b_:
+                    new.append(a_)
+                elif {a_, b_} == {INT, RAT}:
+                    new.append(RAT)
+                else:
+                    self.bad(s, f"a loop variable changes its type from {a_} to {b_}")
+            types = new
+        if body is None:
+            self.bad(s, "the types of the loop variables do not stabilise")
+        self.env, self.state_types, self.yield_types, self.none_flag = saved_outer[0], saved_outer[1], saved_outer[2], saved_outer[3]
+        sty = " × ".join(atom(t_) for t_ in types)
+        init = ", ".join(self.coerce(lname(n), self.env[n], t_) for n, t_ in zip(state, types))
+        init = f"({init})" if len(state) > 1 else init
+        res = self.fresh("loop")
+        out = [f"(match Rpylib.Py.whileLoop (fun ({st} : {sty}) =>\n{textwrap.indent(cond, '    ')}) (fun ({st} : {sty}) =>\n"
+               f"{textwrap.indent(body, '    ')}) ({fuel}) {init} with",
+               f"| none => {self.fn.err}", f"| some {res} =>"]
+        saved = dict(self.env)
+        tail_lines = []
+        for i, (n, t_) in enumerate(zip(state, types)):
+            tail_lines.append(f"let {lname(n)} : {t_} := {self.proj(res, i, len(state)) if len(state) > 1 else res}")
+            self.env[n] = t_
+        tail = self.block(rest, [])
+        self.env = saved
+        return "\n".join(out) + "\n" + textwrap.indent("\n".join(tail_lines) + "\n" + tail, "  ") + ")"
+
+    # ---- numpy vectors: ceil / floor, copy, astype, masked store ------------------------------------------------------
+    _ND_FRESH = ("np.ceil", "numpy.ceil", "np.floor", "numpy.floor", "np.zeros", "numpy.zeros", "np.array", "numpy.array",
+                 "np.cumsum", "numpy.cumsum", "np.insert", "numpy.insert", "np.append", "numpy.append", "np.zeros_like",
+                 "numpy.zeros_like", "np.diff", "numpy.diff", "np.concatenate", "numpy.concatenate", "list")
+    _ND_PURE = ("np.sum", "numpy.sum", "sum", "len", "np.prod", "numpy.prod", "math.prod", "max", "min", "np.max", "np.min",
+                "zip", "enumerate", "tuple", "math.fsum")
+
+    def nd_fresh(self, v) -> bool:
+        """does the expression `v` build a new array (a later in-place store into the name bound to it is then invisible
+        through every other name)?"""
+        if isinstance(v, (ast.BinOp, ast.ListComp)):
+            return True
+        if isinstance(v, ast.Call):
+            f = v.func
+            if isinstance(f, ast.Attribute) and f.attr in ("copy", "astype") and not v.keywords \
+                    and _dotted(f.value) not in ("np", "numpy", "copy", "math"):
+                return True
+            fd = _dotted(f)
+            return bool(fd) and (fd in self._ND_FRESH or fd in self.fn.fn_params)
+        return False
+
+    def nd_exposes(self, v, name) -> bool:
+        """may the value of `v` share memory with the array called `name`?"""
+        if isinstance(v, ast.Name):
+            return v.id == name
+        if isinstance(v, (ast.Subscript, ast.Attribute, ast.Starred)):
+            return self.nd_exposes(v.value, name)
+        if isinstance(v, (ast.Tuple, ast.List, ast.Set)):
+            return any(self.nd_exposes(x, name) for x in v.elts)
+        if isinstance(v, ast.IfExp):
+            return self.nd_exposes(v.body, name) or self.nd_exposes(v.orelse, name)
+        if isinstance(v, ast.Call) and not self.nd_fresh(v) and _dotted(v.func) not in self._ND_PURE:
+            return any(self.nd_exposes(x, name) for x in list(v.args) + [k.value for k in v.keywords])
+        return False
+
+    def nd_require_owned(self, at, name):
+        """the in-place store at `at` into the array `name` is a rebinding of `name` only if no other name can see the array:
+        every assignment of `name` in the function binds a newly built array, and `name` is never bound to another name, put
+        into a container, sliced (a view) or handed to an unknown callable (flow-insensitive, conservative)"""
+        if any(p.arg == name for p in self.node.args.args):
+            self.bad(at, f"in-place store into the parameter `{name}` (the caller's array)")
+        for n in ast.walk(self.node):
+            if isinstance(n, (ast.Assign, ast.AnnAssign)) and n.value is not None:
+                tgs = n.targets if isinstance(n, ast.Assign) else [n.target]
+                for t_ in tgs:
+                    if isinstance(t_, ast.Name) and t_.id == name and not self.nd_fresh(n.value):
+                        self.bad(at, f"in-place store into `{name}`, which may be an alias (bound at line {n.lineno})")
+                    if isinstance(t_, (ast.Tuple, ast.List)) and any(isinstance(x, ast.Name) and x.id == name for x in ast.walk(t_)):
+                        self.bad(at, f"in-place store into `{name}`, bound by unpacking")
+                if self.nd_exposes(n.value, name):
+                    self.bad(at, f"in-place store into `{name}`, which is aliased at line {n.lineno}")
+            elif isinstance(n, ast.Call) and not self.nd_fresh(n) and _dotted(n.func) not in self._ND_PURE \
+                    and not (isinstance(n.func, ast.Attribute) and isinstance(n.func.value, ast.Name) and n.func.value.id == name):
+                if any(self.nd_exposes(x, name) for x in list(n.args) + [k.value for k in n.keywords]):
+                    self.bad(at, f"in-place store into `{name}`, which is passed to a callable at line {n.lineno}")
+            elif isinstance(n, (ast.For, ast.comprehension)) and any(
+                    isinstance(x, ast.Name) and x.id == name for x in ast.walk(n.target)):
+                self.bad(at, f"in-place store into `{name}`, a loop variable")
+
+    def nd_call(self, e, fdot):
+        """np.ceil / np.floor / math.ceil / math.floor, `u.copy()`, `u.astype(int | float)`; None when `e` is none of them"""
+        if fdot and (fdot in self.fn.opaque_fns or fdot in self.fn.fn_params or fdot in self.fn.const_calls):
+            return None
+        f = e.func
+        if fdot in ("np.ceil", "numpy.ceil", "np.floor", "numpy.floor") and len(e.args) == 1 and not e.keywords:
+            fn_ = "Rpylib.Py.rceil" if fdot.endswith("ceil") else "Rpylib.Py.rfloor"
+            s_, t_ = self.expr(e.args[0])
+            if is_list(t_) and elem_of(t_) in (INT, RAT):
+                return f"(List.map {fn_} {self.coerce(s_, t_, 'List Rat')})", "List Rat"
+            if t_ in (INT, RAT, NUM):
+                return f"({fn_} {self.coerce(s_, t_, RAT) if t_ != NUM else '(' + s_ + ' : Rat)'})", RAT
+            self.bad(e, f"{fdot} of a {t_}")
+        if fdot in ("math.ceil", "math.floor") and len(e.args) == 1 and not e.keywords:
+            s_, t_ = self.expr(e.args[0])
+            if t_ in (INT, RAT, NUM):
+                x = self.coerce(s_, t_, RAT) if t_ != NUM else f"({s_} : Rat)"
+                return f"({'Rat.ceil' if fdot.endswith('ceil') else 'Rat.floor'} {x})", INT
+            self.bad(e, f"{fdot} of a {t_}")
+        if isinstance(f, ast.Attribute) and f.attr in ("copy", "astype") and not e.keywords \
+                and _dotted(f.value) not in ("np", "numpy", "copy", "math"):
+            if f.attr == "copy" and not e.args:
+                s_, t_ = self.expr(f.value)
+                if is_list(t_):
+                    return s_, t_                     # a new array with the same content: values are immutable here
+                self.bad(e, f"copy() of a {t_}")
+            if f.attr == "astype" and len(e.args) == 1 and isinstance(e.args[0], ast.Name) and e.args[0].id in ("int", "float"):
+                s_, t_ = self.expr(f.value)
+                if not (is_list(t_) and elem_of(t_) in (INT, RAT)):
+                    self.bad(e, f"astype of a {t_}")
+                if e.args[0].id == "float":
+                    return self.coerce(s_, t_, "List Rat"), "List Rat"
+                if elem_of(t_) == INT:
+                    return s_, t_
+                # float -> C long: truncation towards zero (|x| < 2^63, nan / inf excluded: the caller's domain)
+                return f"(List.map Rpylib.Py.truncInt {s_})", "List Int"
+        return None
+
+    def nd_stmt(self, s, rest):
+        """the masked store `u[u <op> c] = v` (numpy: in place, where the mask holds) on an array this function owns; None
+        when `s` is not one"""
+        if not (isinstance(s, ast.Assign) and len(s.targets) == 1 and isinstance(s.targets[0], ast.Subscript)):
+            return None
+        tg = s.targets[0]
+        if not (isinstance(tg.value, ast.Name) and is_list(self.env.get(tg.value.id, "")) and isinstance(tg.slice, ast.Compare)
+                and len(tg.slice.ops) == 1 and isinstance(tg.slice.left, ast.Name) and tg.slice.left.id == tg.value.id):
+            return None
+        name, lt = tg.value.id, self.env[tg.value.id]
+        et = elem_of(lt)
+        if et not in (INT, RAT):
+            self.bad(s, f"masked store into a {lt}")
+        self.nd_require_owned(s, name)
+        tmp = self.fresh("m")
+        saved = dict(self.env)
+        self.env[tmp] = et
+        cmp_ = ast.copy_location(ast.Compare(left=ast.copy_location(ast.Name(id=tmp, ctx=ast.Load()), tg.slice),
+                                             ops=tg.slice.ops, comparators=tg.slice.comparators), tg.slice)
+        c = self.prop(cmp_)
+        self.env = saved
+        v, vt = self.expr(s.value)
+        if vt not in (INT, RAT, NUM) or (et == INT and vt == RAT):
+            self.bad(s, f"masked store of a {vt} into a {lt}")
+        val = f"({v} : {et})" if vt == NUM else self.coerce(v, vt, et)
+        body = self.block(rest, [])
+        return (f"let {lname(name)} : {lt} := (List.map (fun ({tmp} : {et}) => if {c} then {val} else {tmp}) {lname(name)})\n"
+                f"{body}")
 
     def ret_coerce(self, node, v, t):
         want = self.fn.ret
@@ -927,6 +1680,63 @@ def _dotted(e):
     return None
 
 
+def _stream_ty(t: str) -> str:
+    """Lean type of a function type whose first argument is a stream tag (`@`)"""
+    return t.replace("@", "List Int")
+
+
+def _store_name(attr: str) -> str:
+    return "self_" + attr.lstrip("_")
+
+
+def _is_super_init(c) -> bool:
+    """`super().__init__(..)` / `super(Class, obj).__init__(..)`"""
+    return isinstance(c, ast.Call) and isinstance(c.func, ast.Attribute) and c.func.attr == "__init__" \
+        and isinstance(c.func.value, ast.Call) and isinstance(c.func.value.func, ast.Name) and c.func.value.func.id == "super"
+
+
+class _StoreRewriter(ast.NodeTransformer):
+    """`self.<attr>` for the attributes declared in `stores` becomes the local name self_<attr> (load and store alike)"""
+
+    def __init__(self, stores):
+        self.stores = stores
+
+    def visit_Attribute(self, n):
+        self.generic_visit(n)
+        if isinstance(n.value, ast.Name) and n.value.id == "self" and n.attr in self.stores:
+            return ast.copy_location(ast.Name(id=_store_name(n.attr), ctx=n.ctx), n)
+        return n
+
+
+def _select_block(unit, fn, node):
+    """the consecutive statements of `node` from the one starting with fn.block[0] to the one starting with fn.block[1]"""
+    first, last = (x.replace(" ", "") for x in fn.block[:2])
+    occ = fn.block[2] if len(fn.block) > 2 else 0
+    lists = []
+
+    def visit(n):
+        for fld in ("body", "orelse", "finalbody"):
+            sub = getattr(n, fld, None)
+            if isinstance(sub, list) and sub and isinstance(sub[0], ast.stmt):
+                lists.append(sub)
+                for x in sub:
+                    visit(x)
+    visit(node)
+    hits = []
+    for sub in lists:
+        for i, st in enumerate(sub):
+            if ast.unparse(st).replace(" ", "").startswith(first):
+                hits.append((st.lineno, i, sub))
+    hits.sort(key=lambda h: h[0])
+    if occ >= len(hits):
+        raise Untranslatable(f"{unit.path}:{node.lineno}: {fn.qualname}: no statement starting with {fn.block[0]!r} (occurrence {occ})")
+    _, i, sub = hits[occ]
+    for j in range(i, len(sub)):
+        if ast.unparse(sub[j]).replace(" ", "").startswith(last):
+            return sub[i:j + 1]
+    raise Untranslatable(f"{unit.path}:{sub[i].lineno}: {fn.qualname}: no statement starting with {fn.block[1]!r} after {fn.block[0]!r}")
+
+
 def _norm_expr(e) -> str:
     try:
         return ast.unparse(e).replace(" ", "").replace("numpy.", "np.").replace("+np.inf", "np.inf")
@@ -944,7 +1754,7 @@ def _norm_call(e: ast.Call) -> str:
 
 
 def _find(tree: ast.Module, qualname: str):
-    parts = qualname.split(".")
+    parts = qualname.split("#")[0].split(".")          # `name#tag`: several views (Fn.block) of the same function
     body, cls = tree.body, None
     if len(parts) == 2:
         for n in tree.body:
@@ -953,6 +1763,15 @@ def _find(tree: ast.Module, qualname: str):
                 break
         else:
             return None, None
+    if "@" in parts[-1]:
+        # `Class.method@Type`: the implementation registered with `@method.register` for the first parameter annotated `Type`
+        base, ann = parts[-1].split("@", 1)
+        for n in body:
+            if isinstance(n, ast.FunctionDef) and any(_dotted(d) == base + ".register" for d in n.decorator_list):
+                ps = [p for p in n.args.args if p.arg not in ("self", "cls")]
+                if ps and ps[0].annotation is not None and ast.unparse(ps[0].annotation).replace(" ", "") == ann.replace(" ", ""):
+                    return n, cls
+        return None, None
     for n in body:
         if isinstance(n, ast.FunctionDef) and n.name == parts[-1]:
             return n, cls
@@ -971,11 +1790,24 @@ def _signature(unit: Unit, fn: Fn):
     node, cls = _find(unit.tree, fn.qualname)
     if node is None:
         raise Untranslatable(f"{unit.path}: function {fn.qualname} not found")
+    if fn.stores:
+        import copy as _copy
+        node = ast.fix_missing_locations(_StoreRewriter(fn.stores).visit(_copy.deepcopy(node)))
     a = node.args
-    if a.vararg or a.kwarg or a.kwonlyargs or a.posonlyargs:
+    if (a.vararg or a.kwarg or a.kwonlyargs or a.posonlyargs) and not fn.block:
         raise Untranslatable(f"{unit.path}:{node.lineno}: {fn.qualname}: star / keyword-only parameters")
     params = []
-    for p in a.args:
+    stmts, lines = node.body, (node.lineno, node.end_lineno)
+    if fn.block:
+        # a view of a sub-block: its inputs are the declared parameters, its value is `result`
+        stmts = _select_block(unit, fn, node)
+        lines = (stmts[0].lineno, stmts[-1].end_lineno)
+        if not fn.result or fn.ret is None:
+            raise Untranslatable(f"{unit.path}:{node.lineno}: {fn.qualname}: a block view needs `result` and `ret`")
+        stmts = list(stmts) + [ast.copy_location(ast.Return(value=ast.parse(fn.result, mode="eval").body), stmts[-1])]
+        ast.fix_missing_locations(stmts[-1])
+        params = [(n_, t_) for n_, t_ in fn.params.items()]
+    for p in ([] if fn.block else a.args):
         if p.arg in ("self", "cls"):
             continue
         ty = fn.params.get(p.arg)
@@ -987,23 +1819,30 @@ def _signature(unit: Unit, fn: Fn):
     names_ = [p.arg for p in a.args]
     defaults = dict(zip(names_[len(names_) - len(a.defaults):], a.defaults))
     ret = fn.ret
+    if ret is None and fn.stores:
+        ret = " × ".join(atom(t_) for t_ in fn.stores.values())
     if ret is None and isinstance(node.returns, ast.Name):
         ret = _ANN.get(node.returns.id)
     if ret is None:
         raise Untranslatable(f"{unit.path}:{node.lineno}: {fn.qualname}: return type not declared")
-    sig = {"py_params": params, "ret": ret, "extra": [], "node": node, "cls": cls, "defaults": defaults}
+    if fn.block:
+        defaults = {}
+    sig = {"py_params": params, "ret": ret, "extra": [], "node": node, "cls": cls, "defaults": defaults, "lines": lines}
     _sig_cache[key] = sig
     # translate the body once to discover the extra parameters (self attributes, enum tests)
     tr = _Tr(unit, fn, node, cls)
     tr.env = {n: (t[4:] if t.startswith("opt:") else t) for n, t in params}
     tr.none_flag = {n: lname(n) + "_none" for n, t in params if t.startswith("opt:")}
+    for a_, t_ in fn.stores.items():                # mutable attributes: state variables, their values on entry are parameters
+        tr.env[_store_name(a_)] = t_
+        tr.add_param(_store_name(a_), t_)
     saved_ret = fn.ret
     fn.ret = ret
     try:
-        body = tr.block(node.body, [])
+        body = tr.block(stmts, [])
     finally:
         fn.ret = saved_ret
-    order = ["self_" + a.replace("._", "_").replace(".", "_").lstrip("_") for a in fn.self_attrs] \
+    order = [_store_name(a_) for a_ in fn.stores] + ["self_" + a.replace("._", "_").replace(".", "_").lstrip("_") for a in fn.self_attrs] \
         + [nm for nm, _ in fn.const_calls.values()] + [nm for nm, _ in fn.const_exprs.values()] \
         + [nm for nm, _, _ in fn.opaque_fns.values()] + list(fn.fn_params.values())
     sig["extra"] = sorted(tr.extra_params, key=lambda nt: (order.index(nt[0]) if nt[0] in order else len(order), nt[0]))
@@ -1027,6 +1866,33 @@ def _binder(n, t):
     return f"({lname(n)} : {t})"
 
 
+def _module_consts(unit: Unit) -> list[str]:
+    """`def NAME : T := <expr>` for the module-level constants listed in `unit.consts`, translated from the single module-level
+    assignment `NAME = <expr>` (a closed arithmetic expression); failures are recorded in `unit.const_bad` and make the
+    functions that read the constant untranslatable"""
+    out = []
+    unit.const_bad = {}
+    for cn, cty in (getattr(unit, "consts", None) or {}).items():
+        hits = [n for n in unit.tree.body if (isinstance(n, ast.Assign) and len(n.targets) == 1 and isinstance(n.targets[0], ast.Name)
+                                               and n.targets[0].id == cn)
+                or (isinstance(n, ast.AnnAssign) and isinstance(n.target, ast.Name) and n.target.id == cn and n.value is not None)]
+        rebound = [n for n in ast.walk(unit.tree) if isinstance(n, ast.Global) and cn in n.names]
+        if len(hits) != 1 or rebound:
+            unit.const_bad[cn] = f"{unit.path}: expected exactly one module-level assignment of {cn}"
+            continue
+        try:
+            tr = _Tr(unit, Fn("<module>"), hits[0], None)
+            val = tr.expr_as(hits[0].value, cty)
+            if tr.extra_params:
+                raise Untranslatable(f"{unit.path}:{hits[0].lineno}: the value of {cn} is not a closed expression")
+        except Untranslatable as e:
+            unit.const_bad[cn] = str(e)
+            continue
+        out.append(f"/-- {unit.path}:{hits[0].lineno} module constant `{cn}` (translated from the source by harness/py2lean.py) -/\n"
+                   f"def {lname(cn)} : {cty} := {val}\n")
+    return out
+
+
 def translate_unit(repo_root, unit: Unit, namespace: str):
     """Return (lean_text_of_definitions, report).  report[qualname] = "ok" | reason why it is untranslatable."""
     import pathlib
@@ -1034,6 +1900,7 @@ def translate_unit(repo_root, unit: Unit, namespace: str):
     unit.tree = ast.parse(src)
     _sig_cache.clear()
     out, report = [], {}
+    out += _module_consts(unit)
     for q, fn in unit.fns.items():
         try:
             sig = _signature(unit, fn)
@@ -1047,7 +1914,12 @@ def translate_unit(repo_root, unit: Unit, namespace: str):
         binders = " ".join(_binder(n, t) for n, t in sig["py_params"] if t != "obj")
         extra = " ".join(f"({n} : {t})" for n, t in sig["extra"])
         binders = (binders + " " + extra).strip()
-        doc = f"/-- {unit.path}:{node.lineno}-{node.end_lineno} `{q}` (translated from the source by harness/py2lean.py) -/"
+        l0, l1 = sig.get("lines", (node.lineno, node.end_lineno))
+        what = f"`{q}`" + (f", the statements from `{fn.block[0]}` to `{fn.block[1]}`, value `{fn.result}`" if fn.block else "") \
+            + (f"; result = the final values of self.{', self.'.join(fn.stores)}" if fn.stores else "") \
+            + (f"; result = the arguments {', '.join(fn.ctor)} of the constructor call" if fn.ctor else "") \
+            + ("".join(f"; SPECIALISED to the case `{k_}` is {v_}" for k_, v_ in fn.opts.get("static_tests", {}).items()))
+        doc = f"/-- {unit.path}:{l0}-{l1} {what} (translated from the source by harness/py2lean.py) -/"
         body = textwrap.indent(sig["body"], "  ")
         if sig["recursive"]:
             if fn.fuel is None or fn.err is None:
